@@ -459,6 +459,7 @@ impl Sim {
                         .collect(),
                     fail_after: script.fail_after,
                     direct: vec![],
+                    probe: false,
                 };
                 let before = self.last_obs.clone();
                 let views_before = self.replica.log.borrow().action_views.len();
